@@ -51,6 +51,12 @@ func (g *histGen) inArg(valid bool) {
 		cls = r.Pick(0, 1, 2, 3)
 	}
 	t, idx := r.Intn(nPrevTx), r.Pick(0, 0, 1, 2, 3, 4, 5, 6)
+	if !valid && len(g.ins) > 0 && r.Chance(45) {
+		// a well-formed argument that spends an outpoint the packet already has (any sequence / locktimes)
+		cls = 0
+		e := g.ins[r.Intn(len(g.ins))]
+		t, idx = e[0], e[1]
+	}
 	if valid {
 		for tries := 0; tries < 8 && g.used[fmt.Sprint(t, ":", idx)]; tries++ {
 			t, idx = r.Intn(nPrevTx), r.Intn(6)
